@@ -269,13 +269,20 @@ def oracle(case, ctx):
             if kind == "ups":
                 discs += check_forecast(u, model, steps, desc, "update_predict_single", sut(expected_forecast, upar))
         elif kind == "update_predict":
-            m = op["m"]
+            m = op["m"] + (2 if op.get("other_fh") and not fh_fit else 0)  # (room for the longer horizon)
             labs = list(range(c + 1, c + 1 + m))
             yf = mk(labs, [val(k) for k in labs], ik)
+            up_steps = steps
+            if op.get("other_fh") and not fh_fit:
+                # the splitter's horizon is the one that counts for the rolling forecasts, also when
+                # the forecaster remembers another one from an earlier predict
+                up_steps = [h + 1 for h in steps][: max(1, len(steps) - 1)] + [steps[-1] + 2]
+                up_steps = sorted(set(up_steps))
+                ctx.label("update_predict_with_other_horizon")
             if op["cv"] == "sliding":
-                cv = SlidingWindowSplitter(fh=steps, window_length=op["wl"], step_length=op["step"], start_with_window=op["sww"])
+                cv = SlidingWindowSplitter(fh=up_steps, window_length=op["wl"], step_length=op["step"], start_with_window=op["sww"])
             else:
-                cv = ExpandingWindowSplitter(fh=steps, initial_window=op["wl"], step_length=op["step"], start_with_window=op["sww"])
+                cv = ExpandingWindowSplitter(fh=up_steps, initial_window=op["wl"], step_length=op["step"], start_with_window=op["sww"])
             twin = sut(copy.deepcopy, f)
             if isinstance(twin, Raised):
                 raise AssertionError("deepcopy failed: %r" % (twin,))
@@ -287,7 +294,7 @@ def oracle(case, ctx):
                 if isinstance(u, Raised):
                     ok = False
                     break
-                p = sut(twin.predict, fh_arg())
+                p = sut(twin.predict, fh_arg() if up_steps is steps else gen.build_fh(up_steps, "list"))
                 if isinstance(p, Raised):
                     ok = False
                     break
@@ -301,7 +308,7 @@ def oracle(case, ctx):
             if isinstance(got, Raised):
                 discs.append(D("update_predict_raised:%s@%s" % (got.type, got.where), "%s: %s" % (desc, got.msg)))
                 break
-            discs += check_update_predict(got, exp, steps, desc)
+            discs += check_update_predict(got, exp, up_steps, desc)
             cc = sut(lambda: f.cutoff)
             if isinstance(cc, Raised) or int(cc) != c:
                 discs.append(D("cutoff_not_restored_after_update_predict", "%s: cutoff %r was %d" % (desc, cc, c)))
@@ -461,7 +468,7 @@ def cases(draw):
             m = draw(st.integers(wl + steps[-1], wl + steps[-1] + 6))
             ops.append({"op": "update_predict", "m": m, "cv": draw(st.sampled_from(["sliding", "expanding"])), "wl": wl,
                         "step": draw(st.integers(1, 3)), "sww": draw(st.booleans()),
-                        "update_params": draw(st.sampled_from([True, False]))})
+                        "update_params": draw(st.sampled_from([True, False])), "other_fh": draw(st.integers(0, 2)) == 0})
             # ... optionally followed by a predict and / or a second update_predict
             tail = draw(st.sampled_from(["", "p", "p", "u", "pu", "up"]))
             for ch in tail:
